@@ -107,6 +107,8 @@ type M struct {
 	inShard          int
 	raw              bool // accessor available
 	prefix           string
+	quiet            bool // burst mode: an event identical to an earlier one (same call, same inputs, same observation) is not written again
+	seen             map[string]string
 }
 
 func newMachine(dir, prop string, seed int64, ne, ns int) *M {
@@ -199,6 +201,13 @@ func (m *M) obs() []kv {
 			}
 		}
 	}
+	if secp256k1.VerifScalarAccessor { // the stored limbs themselves: the value is theirs, whatever Encode says
+		sl := make([]any, len(m.S))
+		for i, s := range m.S {
+			sl[i] = be32(limbsToBig(*secp256k1.VerifScalarLimbs(s)))
+		}
+		return []kv{{"E", es}, {"S", ss}, {"Seq", seq}, {"Sl", sl}}
+	}
 	return []kv{{"E", es}, {"S", ss}, {"Seq", seq}}
 }
 
@@ -208,6 +217,29 @@ func (m *M) emit(op string, fields ...kv) {
 		m.openShard()
 	}
 	all := append([]kv{{"op", op}}, fields...)
+	if m.quiet {
+		var kb strings.Builder
+		jsonVal(&kb, all)
+		all = append(all, kv{"obs", m.obs()})
+		var sb strings.Builder
+		jsonVal(&sb, all)
+		if m.seen == nil {
+			m.seen = map[string]string{}
+		}
+		if prev, ok := m.seen[kb.String()]; ok && prev == sb.String() {
+			m.classes["burst_calls_identical_to_a_validated_one"]++
+			return
+		}
+		if _, ok := m.seen[kb.String()]; !ok {
+			m.seen[kb.String()] = sb.String()
+		}
+		m.w.WriteString(sb.String())
+		m.w.WriteByte('\n')
+		m.events++
+		m.inShard++
+		m.classes["op:"+op]++
+		return
+	}
 	all = append(all, kv{"obs", m.obs()})
 	var sb strings.Builder
 	jsonVal(&sb, all)
